@@ -27,7 +27,8 @@ class Scenario:
         return t
 
 
-BASE_FILES = {'f0': b'zero', 'd/f1': b'one', 'd/e/f2': b'two!', 'g/f3': b''}
+# 'dx/f5' and 'd.txt' are string-prefix (not component-prefix) look-alikes of the directory 'd'
+BASE_FILES = {'f0': b'zero', 'd/f1': b'one', 'd/e/f2': b'two!', 'g/f3': b'', 'dx/f5': b'five', 'd.txt': b'dtxt'}
 H1 = ('SHA1',)
 
 
@@ -57,17 +58,31 @@ def priors():
             def nested(cd=cd, ce=ce):
                 md, me = mname('d', cd), mname('d/e', ce)
                 return Scenario(B, [
-                    MSpec(TOP, [_F('f0'), _F('g/f3'), ('M', md, H1),
+                    MSpec(TOP, [_F('f0'), _F('g/f3'), _F('dx/f5'), _F('d.txt'), ('M', md, H1),
                                 ('L', 'DIST top.tar 1 SHA1 ' + 'b' * 40)]),
                     MSpec(md, [_F('d/f1'), ('M', me, H1), ('L', 'DIST sub.tar 2 SHA1 ' + 'c' * 40)]),
                     MSpec(me, [_F('d/e/f2', tag='MISC')]),
                 ])
             yield f'nested_{cd}_{ce}', nested
 
+    def nested_stale_subentry():
+        # the sub-Manifest was edited by hand (lines swapped): valid, but the parent's MANIFEST entry is stale
+        sc = Scenario(B, [
+            MSpec(TOP, [_F('f0'), _F('g/f3'), _F('dx/f5'), _F('d.txt'), ('M', 'd/Manifest', H1)]),
+            MSpec('d/Manifest', [_F('d/f1'), _F('d/e/f2')]),
+        ])
+
+        def swap(t):
+            lines = t.files['d/Manifest'].decode().splitlines()
+            t.files['d/Manifest'] = ''.join(x + '\n' for x in lines[::-1]).encode()
+        sc.post.append(swap)
+        return sc
+    yield 'nested_stale_subentry', nested_stale_subentry
+
     def nested_ancestor():
         # d/e/f2 is listed by the top Manifest although d/Manifest exists
         return Scenario(B, [
-            MSpec(TOP, [_F('f0'), _F('g/f3'), _F('d/e/f2'), ('M', 'd/Manifest', H1)]),
+            MSpec(TOP, [_F('f0'), _F('g/f3'), _F('dx/f5'), _F('d.txt'), _F('d/e/f2'), ('M', 'd/Manifest', H1)]),
             MSpec('d/Manifest', [_F('d/f1')]),
         ])
     yield 'nested_ancestor', nested_ancestor
@@ -84,7 +99,7 @@ def priors():
 
     def dup_parent_child():
         return Scenario(B, [
-            MSpec(TOP, [_F('f0'), _F('g/f3'), _F('d/f1'), _F('d/e/f2'), ('M', 'd/Manifest', H1)]),
+            MSpec(TOP, [_F('f0'), _F('g/f3'), _F('dx/f5'), _F('d.txt'), _F('d/f1'), _F('d/e/f2'), ('M', 'd/Manifest', H1)]),
             MSpec('d/Manifest', [_F('d/f1'), _F('d/e/f2', ('MD5',))]),
         ])
     yield 'dup_parent_child', dup_parent_child
@@ -93,7 +108,7 @@ def priors():
         md = mname('d', comp)
         tree = Tree(B)
         render_layout(tree, [MSpec(md, [_F('d/f1'), _F('d/e/f2')])])
-        items = [_F('f0'), _F('g/f3')] + ([_F('d/f1'), _F('d/e/f2')] if top_lists else [])
+        items = [_F('f0'), _F('g/f3'), _F('dx/f5'), _F('d.txt')] + ([_F('d/f1'), _F('d/e/f2')] if top_lists else [])
         return Scenario(B, [MSpec(TOP, items)], raw={md: tree.files[md]})
     yield 'unreg_valid_dup', lambda: unreg_valid(True)
     yield 'unreg_valid_only', lambda: unreg_valid(False)
@@ -107,7 +122,7 @@ def priors():
 
     def two_in_dir():
         return Scenario(B, [
-            MSpec(TOP, [_F('f0'), _F('g/f3'), ('M', 'd/Manifest.a', H1), ('M', 'd/Manifest.b', H1)]),
+            MSpec(TOP, [_F('f0'), _F('g/f3'), _F('dx/f5'), _F('d.txt'), ('M', 'd/Manifest.a', H1), ('M', 'd/Manifest.b', H1)]),
             MSpec('d/Manifest.a', [_F('d/f1')]),
             MSpec('d/Manifest.b', [_F('d/e/f2')]),
         ])
@@ -124,14 +139,14 @@ def priors():
 
     def samedir_chain_sub():
         return Scenario(B, [
-            MSpec(TOP, [_F('f0'), _F('g/f3'), ('M', 'd/Manifest', H1)]),
+            MSpec(TOP, [_F('f0'), _F('g/f3'), _F('dx/f5'), _F('d.txt'), ('M', 'd/Manifest', H1)]),
             MSpec('d/Manifest', [('M', 'd/Manifest.files', H1)]),
             MSpec('d/Manifest.files', [_F('d/f1'), _F('d/e/f2')]),
         ])
     yield 'samedir_chain_sub', samedir_chain_sub
 
     def ignore_sub():
-        return Scenario(B, [MSpec(TOP, [_F('f0'), _F('d/f1'), _F('d/e/f2'), ('L', 'IGNORE g')])])
+        return Scenario(B, [MSpec(TOP, [_F('f0'), _F('dx/f5'), _F('d.txt'), _F('d/f1'), _F('d/e/f2'), ('L', 'IGNORE g')])])
     yield 'ignore_dir', ignore_sub
 
     def entry_is_dir():
@@ -144,7 +159,7 @@ def priors():
         files = dict(B)
         files.update({'files/aux1': b'aux', 'p-1.ebuild': b'eb', 'metadata.xml': b'<x/>', 'out/o1': b'outside'})
         return Scenario(files, [
-            MSpec(TOP, [_F('f0'), ('F', 'EBUILD', 'p-1.ebuild', H1), ('F', 'MISC', 'metadata.xml', H1),
+            MSpec(TOP, [_F('f0'), _F('dx/f5'), _F('d.txt'), ('F', 'EBUILD', 'p-1.ebuild', H1), ('F', 'MISC', 'metadata.xml', H1),
                         ('F', 'AUX', 'files/aux1', H1), _F('g/f3', ('MD5',)), _F('out/o1', ('MD5', 'SHA1')),
                         ('M', 'd/Manifest.gz', H1),
                         ('L', 'DIST a.tar 1 SHA1 ' + 'a' * 40), ('L', 'DIST b.tar 2 SHA1 ' + 'b' * 40),
@@ -156,7 +171,7 @@ def priors():
     yield 'tags_rich', tags_rich
 
 
-EDITS = ['none', 'alter_same', 'alter_size', 'delete', 'add', 'add_dir', 'delete_dir', 'alter_two']
+EDITS = ['none', 'alter_same', 'alter_size', 'delete', 'add', 'add_dir', 'delete_dir', 'alter_two', 'alter_top']
 
 
 def apply_edit(tree, edit):
@@ -175,6 +190,8 @@ def apply_edit(tree, edit):
         tree.files['d/nd/deep'] = b'deep'
     elif edit == 'delete_dir':
         del tree.files['d/e/f2']
+    elif edit == 'alter_top':
+        tree.files['f0'] = b'ZERO!!'
     elif edit == 'alter_two':
         tree.files['f0'] = b'ZERO!'
         tree.files['d/e/f2'] = b'TWO'
